@@ -433,6 +433,15 @@ def _merge_sparse_by_pair_files(
     up_pair_idx_dtype = choose_int_dtype((0, n_up_indices))
     down_pair_idx_dtype = choose_int_dtype((0, n_down_indices))
 
+    # h5py rejects a chunk dimension of zero; when no gene is a marker
+    # in one direction for any pair, the (empty) array is not chunked
+    up_gene_chunks = None
+    if n_up_indices > 0:
+        up_gene_chunks = (min(1000000, n_up_indices),)
+    down_gene_chunks = None
+    if n_down_indices > 0:
+        down_gene_chunks = (min(1000000, n_down_indices),)
+
     up_pair_offset = 0
     down_pair_offset = 0
     with h5py.File(output_path, 'a') as dst:
@@ -447,7 +456,7 @@ def _merge_sparse_by_pair_files(
             'up_gene_idx',
             shape=(n_up_indices,),
             dtype=gene_idx_dtype,
-            chunks=(min(1000000, n_up_indices),))
+            chunks=up_gene_chunks)
         dst_grp.create_dataset(
             'down_pair_idx',
             shape=(n_pairs+1,),
@@ -456,7 +465,7 @@ def _merge_sparse_by_pair_files(
             'down_gene_idx',
             shape=(n_down_indices,),
             dtype=gene_idx_dtype,
-            chunks=(min(1000000, n_down_indices),))
+            chunks=down_gene_chunks)
 
         col0_values = list(tmp_path_dict.keys())
         col0_values.sort()
